@@ -30,7 +30,7 @@ RULE = ("Programs: all public functions of all catalogue modules (exhaustive). I
     "assumptions, unit drawn among all tabled units of the guard's dimension plus an SI prefix, and a second spelling "
     "of the same physical values in other units. Oracles: residual of the published equation at 50 digits "
     "(tol 1e-9 x sum|terms|) and unit/call-style invariance of the SI result (rel 1e-9). "
-    "Non-trivial case: the call returned, no mantissa equals 1, at least one argument is written in a non-coherent unit; "
+    "Vector modules: mutual-inverse round trips of law-function pairs and calculate-function pairs on generated components. Non-trivial case: the call returned, no mantissa equals 1, at least one argument is written in a non-coherent unit; "
     "distinct by (function, recipe).")
 
 # Functions documented to return the magnitude (absolute value) or the rounded-up integer of the law's solution.
@@ -651,12 +651,15 @@ def _shard(task: dict[str, Any]) -> Recorder:
     recipes: list[Any] = []
     hyp_run(recipe_strategy(task["kmax"]), recipes.append, task["k"] * 3, task["seed"])
     recipes = recipes[-task["k"]:] if len(recipes) >= task["k"] else recipes
+    from . import c02_vector
     for modname in task["mods"]:
         try:
             mod = import_module(modname)
         except Exception:  # pylint: disable=broad-except
             rec.count("module_not_importable")
             continue
+        if ".vector." in modname:
+            c02_vector.run_module(modname, [[list(x) for x in r] for r in recipes], rec)
         for fname, fn in public_functions(mod):
             desc = describe(mod, fname, fn)
             site = f"{short(modname)}:{fname}"
@@ -721,11 +724,14 @@ def run(ctx: Ctx) -> None:
         "parameter <-> symbol correspondence: the guard symbol of validate_input, else the module attribute named like the parameter without its trailing underscore",
         "a call that raises on dimensionally valid arguments is not a violation (the property is conditional on 'returns a value'); counted per function, functions never returning are listed as uncovered",
         "functions without a one-to-one symbol correspondence to a published algebraic equation are covered by the unit/call-style invariance only; they are listed by name in the evidence",
-        "vector law functions, sequence-valued parameters and results are not generated in this version",
+        "vector laws: every pair of law-functions / calculate-functions of one module that are solved for each other's vector argument (paired by name, other parameters identical) is checked as a round trip g(f(v, rest), rest) == v (vp/checks/c02_vector.py); other vector- and sequence-valued functions are not generated",
     ]
 
 
 def replay(case: dict[str, Any]) -> list[tuple[str, str]]:
+    if str(case.get("kind", "")).startswith("vector-"):
+        from . import c02_vector
+        return c02_vector.replay(case)
     mod = import_module(case["module"])
     for fname, fn in public_functions(mod):
         if fname == case["function"]:
